@@ -84,7 +84,7 @@ RETCODE adfReadDumpSector ( struct AdfDevice * const dev,
                             uint8_t * const          buf )
 {
 /*puts("adfReadDumpSector");*/
-    int pos = fseek ( dev->fd, 512 * n, SEEK_SET );
+    int pos = fseek ( dev->fd, (long) n * 512, SEEK_SET );   /* (512 * n wraps in 32 bits) */
 /*printf("nnn=%ld size=%d\n",n,size);*/
     if ( pos == -1 )
         return RC_ERROR;
@@ -110,7 +110,7 @@ RETCODE adfWriteDumpSector ( struct AdfDevice * const dev,
                              const unsigned           size,
                              const uint8_t * const    buf )
 {
-    int r = fseek ( dev->fd, 512 * n, SEEK_SET );
+    int r = fseek ( dev->fd, (long) n * 512, SEEK_SET );   /* (512 * n wraps in 32 bits) */
     if (r==-1)
         return RC_ERROR;
 
